@@ -16,9 +16,9 @@ package props
 import (
 	"fmt"
 	"net"
-	"net/netip"
 	"net/http"
 	"net/http/httptest"
+	"net/netip"
 	"net/url"
 	"strings"
 	"testing"
